@@ -1352,13 +1352,29 @@ def str_to_int(x, base=10):
     x = x.strip()
     if len(x) <= 600:
         return int(x, base)
+    sign = 1
     if x[0] in '+-':
-        v = str_to_int(x[1:], base)
         if x[0] == '-':
-            return -v
-        return v
+            sign = -1
+        x = x[1:]
+    # Digit separators stand between digits only (as int() has it); the
+    # pieces are cut by digit positions
+    if '_' in x:
+        if x[0] == '_' or x[-1] == '_' or '__' in x:
+            raise ValueError("invalid literal for int(): %r" % x[:30])
+        x = x.replace('_', '')
+    return sign * _digits_to_int(x, base)
+
+def _digits_to_int(x, base):
+    # (a piece is a run of digits: int() alone would also take a sign or
+    # blanks at its ends)
+    if not x or x[0] in '+-' or x[0].isspace() or x[-1].isspace():
+        raise ValueError("invalid literal for int(): %r" % x[:30])
+    if len(x) <= 600:
+        return int(x, base)
     half = len(x) // 2
-    return str_to_int(x[:-half], base) * base**half + str_to_int(x[-half:], base)
+    return _digits_to_int(x[:-half], base) * base**half + \
+        _digits_to_int(x[-half:], base)
 
 def str_to_man_exp(x, base=10):
     """Helper function for from_str."""
